@@ -283,7 +283,8 @@ DoRead(t, m, s, rp, D) ==
       p == Resolve(rp, pr.items, Val(s.name))
   IN IF pr.st = "panic" THEN Res(t, m, "closed", {})
      ELSE IF pr.st = "err" THEN Res(t, m, "none", {})
-     ELSE Res(t, m, IF StatErr(t, p) = "other" THEN "none" ELSE "ok", {p} \cup ExistingSides(t, p, rp, D))
+     ELSE Res(t, m, IF StatErr(t, p) = "other" THEN "none" ELSE "ok",
+              {p} \cup ExistingSides(t, p, rp, D) \cup (IF StatErr(t, p) = "ok" THEN {Follow(t, p, 3)} ELSE {}))
 
 DoNewFolder(t, m, s, rp, D) ==
   LET pr == ParsePath(s.path, D)
@@ -457,7 +458,14 @@ DoAcct(t, m, s, up, D) ==
 (* ---- dispatch ----------------------------------------------------------------------------- *)
 UploadBytes == 3      \* the drivers upload 3 data bytes per file
 Kinds == {"list", "info", "download", "dlfolder", "newfolder", "rename", "setcomment", "move", "delete", "alias",
-          "upload", "upfolder", "acct"}
+          "upload", "upfolder", "acct", "seq"}
+RECURSIVE Do(_, _, _, _, _, _, _)
+(* a short history of requests in one sandbox (kind "seq"): the effects accumulate *)
+RECURSIVE DoSteps(_, _, _, _, _, _)
+DoSteps(r, steps, rp, up, ign, D) ==
+  IF steps = <<>> \/ r.rep = "closed" THEN r
+  ELSE LET n == Do(r.t, r.m, Head(steps), rp, up, ign, D)
+       IN DoSteps([n EXCEPT !.eff = @ \cup r.eff, !.listed = FALSE, !.names = {}], Tail(steps), rp, up, ign, D)
 AtRoot(s, rp, D) == LET pr == ParsePath(s.path, D) IN pr.st = "ok" /\ Resolve(rp, pr.items, Val(s.name)) = rp
 Do(t, m, s, rp, up, ign, D) ==
   CASE "F24b" \in D /\ s.kind \in {"info", "download", "setcomment", "rename", "move", "delete"} /\ AtRoot(s, rp, D) -> Res(t, m, "err", {})
@@ -473,6 +481,7 @@ Do(t, m, s, rp, up, ign, D) ==
     [] s.kind = "upload" -> DoUpload(t, m, s, rp, D, UploadBytes)
     [] s.kind = "upfolder" -> DoUpFolder(t, m, s, rp, D, UploadBytes)
     [] s.kind = "acct" -> DoAcct(t, m, s, up, D)
+    [] s.kind = "seq" -> DoSteps(Res(t, m, "ok", {}), s.steps, rp, up, ign, D)
     [] OTHER -> Res(t, m, "none", {})
 
 (* the step as an action on the module's variables *)
